@@ -20,6 +20,7 @@ struct Profile {
     bool misuse = false;
     bool wide_ids = false;
     bool subbyte_aligned = false;
+    double deep_anno_chance = 0;      // C11 thorough: a program with decimation 2 and > 2^15 annotations on one signal (all 15 index levels, several chunks on the top one)
     bool no_omission = false;         // no omitted blocks (neither on request nor constant <= 8-bit blocks): KF-C03-omitted-blocks-after-crash / KF-C17-copy-omitted-blocks     // keep write lengths / ids of sub-byte types byte aligned (known finding KF-subbyte-unaligned-write)
 };
 
